@@ -122,6 +122,41 @@ def strategy(draw):
                 perm_seed=perm_seed, poly=poly, const=const, dtype=dtype, translate=translate)
 
 
+BIG = {"quick": 24, "thorough": 240}
+
+
+@st.composite
+def strategy_big(draw):
+    """FFT grids of long windows: n = 2^13 .. 2^18 samples (4 097 .. 131 073 bins), 1-3 rows, up to 8 centre frequencies."""
+    case = draw(strategy())
+    n = draw(gen.big_size(2 ** 13, 2 ** 18))
+    tr = case.get("translate")
+    if tr:
+        n = 2 ** draw(st.sampled_from([13, 14, 15, 16, 17]))      # keep the grid exactly representable
+    f = np.fft.rfftfreq(n, case["dt"])
+    nf = len(f)
+    df = float(f[1])
+    if case["op"] in ("linear_rectangular", "linear_triangular", "parzen") and not tr:
+        case["bw"] = float(df * draw(gen.log_floats(0.5, 400)))
+    elif tr and case["op"] != "parzen":
+        case["bw"] = float(2 * tr["half"] * df)
+    elif tr:
+        case["bw"] = float(df * draw(st.sampled_from([1, 2, 4, 16])))
+    kinds = draw(st.lists(st.tuples(st.sampled_from(["bin", "bin", "off", "low", "nyq"]), gen.floats(0, 1)), min_size=1, max_size=8))
+    fcs = []
+    for kind, v in kinds:
+        if kind == "bin":
+            fcs.append(float(f[int(v * (nf - 1))]))
+        elif kind == "off":
+            fcs.append(float(v * f[-1]))
+        elif kind == "low":
+            fcs.append(float(3 * v * df))
+        else:
+            fcs.append(float(f[-1]))
+    case.update(n=n, fcs=sorted(fcs) if draw(st.booleans()) else fcs, rows=case["rows"][:3], big=True)
+    return case
+
+
 # -- check ------------------------------------------------------------------
 
 def _ops():
@@ -159,7 +194,7 @@ def check_case(case):
     else:
         spec_in = spec
     fcs = np.array(case["fcs"], dtype=float)
-    labels = [op, f"dtype={dtype}"]
+    labels = [op, f"dtype={dtype}"] + (["big-2^%d-bins" % int(math.log2(nf))] if case.get("big") else [])
     # single-precision storage: the compiled kernels may accumulate in single precision (numba's scalar x float32-array rule)
     RT = 1e-9 if dtype != "float32" else 3e-5
     RT12 = 1e-12 if dtype != "float32" else 3e-5
